@@ -372,7 +372,27 @@ func engineC36(c *vctx) error {
 	}
 	var sb strings.Builder
 	sb.WriteString(root + "\n")
+	// shard directories of the flagged saves are removed up front; the save that really meets the missing
+	// directory is the FIRST pack save of the plan into that shard, so the flags are re-assigned in plan order
 	removed := map[string]bool{}
+	for _, p := range plan {
+		if p.mkdir && p.typ == "data" {
+			d := filepath.Join(root, "data", p.name[:2])
+			if !removed[d] && os.Remove(d) == nil {
+				removed[d] = true
+			}
+		}
+	}
+	for i, p := range plan {
+		plan[i].mkdir = false
+		if p.typ == "data" {
+			d := filepath.Join(root, "data", p.name[:2])
+			if removed[d] {
+				plan[i].mkdir = true
+				delete(removed, d)
+			}
+		}
+	}
 	for i, p := range plan {
 		src := "-"
 		if p.reader == "file" {
@@ -381,16 +401,7 @@ func engineC36(c *vctx) error {
 				return err
 			}
 		}
-		if p.mkdir {
-			d := filepath.Join(root, "data", p.name[:2])
-			if removed[d] {
-				plan[i].mkdir = false
-			} else if err := os.Remove(d); err != nil {
-				plan[i].mkdir = false
-			} else {
-				removed[d] = true
-			}
-		}
+		_ = p
 		fmt.Fprintf(&sb, "%s %s %d %s %s\n", p.typ, p.name, p.size, p.reader, src)
 	}
 	planFile := filepath.Join(c.dir, "plan.txt")
